@@ -12,6 +12,11 @@ CLAIMED = {
          "Generated-input search against a reference model of the expected leaves. All (parts 0..3 x embeds 0..3 x attachments 0..3 x 3 encodings x 3 content classes) shape tuples are enumerated completely; everything else (contents, per-leaf options, sources) is sampled, so absence of violations is statistical.",
          "The harness' own MIME reader is the oracle (disagreement with the stdlib readers is reported as a harness error, never as a violation). QP text is generated with CRLF/LF breaks only; caller-chosen boundaries are not generated.",
          "DESIGN.md section 3, C01"),
+ "C02": ("exploration",
+         "rapid-generated hostile strings (CR/LF injection payloads with markers, NUL/control, invalid UTF-8, specials, encoded-word lookalikes, long words) fed to every text-accepting setter; oracle: strict RFC 5322 header-section scan (field multiset == model), RFC 2047 decode == string set, own address parser, leaf content unchanged",
+         "Generated-input search against a model of the expected header fields of every section. Setters, shapes and strings are sampled; nothing is enumerated exhaustively.",
+         "*Preformatted setters and header names are out of scope by the property's statement. Values that consist of printable ASCII and contain encoded-word syntax are a recorded known finding (ew-lookalike-verbatim) and are excluded by signature, counted in the evidence.",
+         "DESIGN.md section 3, C02"),
  "C11": ("exploration",
          "rapid-generated message programs x generated histories of render operations (WriteTo, Write, NewReader, UpdateReader, WriteToFile, WriteToTempFile, failed renders by sink or producer fault); metamorphic oracle: every successful output is byte-identical to the first",
          "Generated histories against a byte-equality oracle; shapes, file sources/encodings and op sequences are sampled by rapid. Map-order dependent differences need several renders to show, so every history renders at least 4 times.",
